@@ -101,7 +101,9 @@ def abort_class(errtext):
     """what made the process abort: the failed assertion (function: expression) or 'abort'"""
     m = ASSERT_RE.search(errtext)
     if m:
-        return "assert:%s:%s" % (m.group(4), re.sub(r"\s+", " ", m.group(5))[:60])
+        expr = re.sub(r"\s+", " ", m.group(5))
+        msg = re.search(r'&& "([^"]*)"', expr)
+        return "assert:%s:%s" % (m.group(4), (msg.group(1) if msg else expr)[:50])
     return "abort"
 
 
@@ -456,10 +458,10 @@ def _gen_own(args):
 
 
 def gen_programs(ctx, n_random, n_templates):
-    """[(name, Program, expected)]: the `n_random` highest ownership scores out of 2*n_random generated programs, plus
+    """[(name, Program, expected)]: the `n_random` highest ownership scores out of 1.5*n_random generated programs, plus
     `n_templates` instances of the hand-written templates.  Deterministic in (seed, index)."""
     import concurrent.futures as cf
-    cand = [(ctx.rng("own", i).getrandbits(64), ctx.rng("own-size", i).choice([0.8, 1.0, 1.3, 1.6])) for i in range(2 * n_random)]
+    cand = [(ctx.rng("own", i).getrandbits(64), ctx.rng("own-size", i).choice([0.8, 1.0, 1.3, 1.6])) for i in range(n_random + n_random // 2)]
     tpl = [(i, ctx.rng("tpl", i).getrandbits(64)) for i in range(n_templates)]
     out = []
     with cf.ProcessPoolExecutor(max_workers=min(16, os.cpu_count() or 4)) as ex:
@@ -568,10 +570,14 @@ def run_programs(ctx, sc, asan, progs, cov):
     return hist, fsets, samples
 
 
+CENSUS_EXCLUDED = {"int_overflow_wrap"}
+
+
 def run_census(ctx, sc, asan, cov):
     """every census cell (one per language feature, including constructs the sweep keeps switched off) under the
     sanitizers.  Only sanitizer reports count here: what a cell prints is the business of C02."""
-    cells = list(sweep.census_cells())
+    # int_overflow_wrap overflows on purpose: C20 asserts nothing about overflow of user arithmetic (DESIGN §4 C20)
+    cells = [c for c in sweep.census_cells() if c[0] not in CENSUS_EXCLUDED]
 
     def do(c):
         name, text, exp = c
@@ -621,3 +627,1480 @@ def run_directed_programs(ctx, sc, asan, cov):
         else:
             out[name] = cls
     cov["directed_programs"] = out
+
+
+# ======================================================================================================================
+# part 2: operation histories against the runtime API
+# ======================================================================================================================
+#
+# A history is a list of input lines for probes/rt_hist_probe.c plus, per line, the record the abstract model predicts.
+# Expected records are ("x", text) - the record must equal text - or ("c", prefix, n) - the record must be
+# prefix + " cap=<k>" with k >= n (the growth policy is not part of the property; length <= capacity is, and the probe
+# touches the last byte of the claimed capacity so that ASan decides whether it is really there).
+#
+# Domain: histories stay inside what the API defines.  dyn_array get/set/remove out of range and list_* pop/get/set/
+# insert/remove out of range end the process by design (assert / exit(1)): that is C08's subject; here they appear only
+# as single-operation "failure cells" that must end the process *without* a memory error.
+
+def hx(b):
+    return b.hex() if b else "-"
+
+
+BOUNDARY_INTS = [0, 1, -1, 2, 7, 8, 255, 256, -128, 65535, 1 << 31, -(1 << 31), (1 << 32) + 1, I64_MAX, I64_MIN, I64_MAX - 1, 42]
+BOUNDARY_LENS = [0, 1, 2, 4, 7, 8, 9, 15, 16, 17, 31, 32, 33, 63, 64, 65, 127, 128, 129, 255, 256, 257, 511, 512, 513]
+FLOAT_BITS = [0x0000000000000000, 0x8000000000000000, 0x3ff0000000000000, 0xbff8000000000000, 0x7ff0000000000000,
+              0xfff0000000000000, 0x7ff8000000000001, 0x0000000000000001, 0x7fefffffffffffff, 0x400921fb54442d18]
+STRUCT_SIZES = [1, 2, 3, 4, 7, 8, 9, 12, 16, 24, 40, 100, 255]
+OPNAMES = {
+    "an": "new", "ac": "new_with_capacity", "ap": "push", "apc": "push_string_copy", "ao": "pop", "ag": "get", "as": "set",
+    "ar": "remove_at", "ax": "clear", "av": "reserve", "ak": "clone", "al": "slice", "aq": "elem_type", "ad": "contents", "af": "release",
+    "ln": "new", "lc": "with_capacity", "lp": "push", "lo": "pop", "li": "insert", "lr": "remove", "ls": "set", "lg": "get", "lx": "clear",
+    "lq": "is_empty", "ld": "contents", "lf": "free",
+    "mn": "new", "mc": "with_capacity", "mp": "push", "mo": "pop", "mi": "insert", "mr": "remove", "ms": "set", "mg": "get", "mx": "clear",
+    "mq": "is_empty", "md": "contents", "mf": "free",
+    "gn": "struct_new", "gs": "alloc_string", "ga": "alloc_array", "gf": "set_field_ref", "gi": "set_field_int", "gg": "get_field",
+    "gx": "field_index", "gr": "retain", "gl": "release", "gc": "collect_cycles", "gk": "struct_clone", "gq": "is_managed", "gw": "use",
+    "sn": "new", "sb": "new_binary", "su": "from_utf8", "sw": "with_capacity", "sc": "concat", "ss": "substring", "sU": "utf8_substring",
+    "sk": "clone", "sl": "utf8_length", "sv": "validate_utf8", "sa": "utf8_char_at", "sy": "byte_at_safe", "sY": "byte_at", "sr": "reserve",
+    "sh": "shrink_to_fit", "sz": "to_cstr", "sZ": "ensure_null_terminated", "sB": "to_binary", "se": "equals", "sE": "equals_cstr",
+    "sf": "free", "sd": "state",
+    "cc": "concat", "cs": "substring", "cn": "contains", "ci": "index_of", "ch": "char_at", "cl": "length", "cf": "from_char",
+    "pc": "nl_str_concat", "ps": "nl_str_substring", "pn": "nl_str_contains", "pe": "nl_str_equals", "pi": "int_to_string",
+    "pt": "string_to_int", "ph": "char_at", "pf": "string_from_char",
+}
+CONTAINER = {"a": "dyn_array", "l": "list_int", "m": "list_string", "g": "gc", "s": "nl_string", "c": "nl_cstr", "p": "prelude"}
+
+
+def op_of(line):
+    return line.split(" ", 1)[0]
+
+
+class Hist:
+    """lines and expected records of one history"""
+
+    def __init__(self, hid, family):
+        self.hid = hid
+        self.family = family
+        self.lines = ["H %s" % hid]
+        self.exp = [("x", "H %s = start" % hid)]
+        self.maxlen = 0
+        self.elem_kinds = set()
+
+    def x(self, line, result, state=""):
+        self.lines.append(line)
+        self.exp.append(("x", "%s = %s%s" % (line, result, state)))
+
+    def c(self, line, result, length):
+        self.lines.append(line)
+        self.exp.append(("c", "%s = %s | len=%d" % (line, result, length), length))
+        if length > self.maxlen:
+            self.maxlen = length
+
+    def digest(self):
+        return hashlib.sha256("\n".join(self.lines[1:]).encode()).hexdigest()[:16]
+
+
+def rand_bytes(r, n, alphabet=None):
+    if alphabet == "ascii":
+        return bytes(r.choice(b"abcdefghijklmnopqrstuvwxyzABCXYZ0123456789 _-") for _ in range(n))
+    return bytes(r.randint(1, 255) for _ in range(n))
+
+
+def rand_cstr(r):
+    """a C string (no NUL byte): mostly short, sometimes long enough to leave the small-allocation classes"""
+    k = r.random()
+    if k < 0.12:
+        return b""
+    if k < 0.7:
+        return rand_bytes(r, r.randint(1, 12), "ascii")
+    if k < 0.9:
+        return rand_bytes(r, r.randint(1, 40))
+    if k < 0.98:
+        return rand_bytes(r, r.choice([63, 64, 65, 127, 128, 255, 256, 300]), "ascii")
+    return rand_bytes(r, r.choice([1000, 4096, 5000]), "ascii")
+
+
+# ---- dyn_array ------------------------------------------------------------------------------------------------------
+class DAGen:
+    EMPTY_POP = {"i": "empty 0", "u": "empty 0", "f": "empty 0000000000000000", "b": "empty 0", "s": "empty NULL", "a": "empty @-1", "t": "empty -"}
+    TYPE_NO = {"i": 1, "u": 8, "f": 2, "s": 3, "b": 4, "a": 5, "t": 6}
+
+    def __init__(self, r, h, nops, kinds="iufbsat"):
+        self.r = r
+        self.h = h
+        self.nops = nops
+        self.kinds = kinds
+        self.slots = {}          # slot -> {"k": kind, "items": [printed form], "ssize": int|None}
+        self.ops = {}
+
+    def count(self, op, kind):
+        key = "%s.%s" % (OPNAMES[op], kind)
+        self.ops[key] = self.ops.get(key, 0) + 1
+        self.h.elem_kinds.add(kind)
+
+    def free_slot(self):
+        c = [s for s in range(12) if s not in self.slots]
+        return self.r.choice(c) if c else None
+
+    def value(self, s):
+        """(token sent, printed form) of a fresh element for slot s, or None when none can be made"""
+        r = self.r
+        k = self.slots[s]["k"]
+        if k == "i":
+            v = r.choice(BOUNDARY_INTS) if r.random() < 0.4 else r.randint(-1000, 1000)
+            return str(v), str(v)
+        if k == "u":
+            v = r.choice([0, 1, 127, 128, 255]) if r.random() < 0.4 else r.randint(0, 255)
+            return str(v), str(v)
+        if k == "f":
+            v = r.choice(FLOAT_BITS) if r.random() < 0.5 else struct.unpack("<Q", struct.pack("<d", r.uniform(-1e6, 1e6)))[0]
+            return "%016x" % v, "%016x" % v
+        if k == "b":
+            v = r.randint(0, 1)
+            return str(v), str(v)
+        if k == "s":
+            b = rand_cstr(r)
+            return hx(b), hx(b)
+        if k == "a":
+            c = [x for x in self.slots if x != s]
+            if not c:
+                return None
+            v = r.choice(c)
+            return str(v), "@%d" % v
+        d = self.slots[s]
+        if d["ssize"] is None:
+            d["ssize"] = r.choice(STRUCT_SIZES)
+        b = bytes(r.randint(0, 255) for _ in range(d["ssize"]))
+        return hx(b), hx(b)
+
+    def referenced(self, s):
+        ref_ = "@%d" % s
+        return any(d["k"] == "a" and ref_ in d["items"] for x, d in self.slots.items())
+
+    def new(self):
+        s = self.free_slot()
+        if s is None:
+            return False
+        k = self.r.choice(self.kinds)
+        self.slots[s] = {"k": k, "items": [], "ssize": None}
+        if self.r.random() < 0.6:
+            self.h.c("an %d %s" % (s, k), "ok", 0)
+            self.count("an", k)
+        else:
+            cap = self.r.choice([-5, 0, 1, 7, 8, 9, 16, 100, 1000])
+            self.h.c("ac %d %s %d" % (s, k, cap), "ok", 0)
+            self.count("ac", k)
+        return True
+
+    def push(self, s):
+        d = self.slots[s]
+        v = self.value(s)
+        if v is None:
+            return False
+        tok, shown = v
+        op = "apc" if d["k"] == "s" and self.r.random() < 0.4 else "ap"
+        d["items"].append(shown)
+        self.h.c("%s %d %s" % (op, s, tok), "same", len(d["items"]))
+        self.count(op, d["k"])
+        return True
+
+    def pop(self, s):
+        d = self.slots[s]
+        if d["items"]:
+            v = d["items"].pop()
+            self.h.c("ao %d" % s, "ok %s" % v, len(d["items"]))
+        else:
+            self.h.c("ao %d" % s, self.EMPTY_POP[d["k"]], 0)
+        self.count("ao", d["k"])
+        return True
+
+    def dump(self, s):
+        d = self.slots[s]
+        self.h.c("ad %d" % s, "[%s]" % " ".join(d["items"]), len(d["items"]))
+        self.count("ad", d["k"])
+
+    def index(self, n):
+        r = self.r
+        return r.choice([0, n - 1, n // 2, r.randrange(n)])
+
+    def step(self):
+        r = self.r
+        if not self.slots:
+            return self.new()
+        s = r.choice(list(self.slots))
+        d = self.slots[s]
+        n = len(d["items"])
+        k = r.random()
+        if k < 0.30:
+            return self.push(s)
+        if k < 0.40:
+            return self.pop(s)
+        if k < 0.50:
+            if d["k"] == "t" and r.random() < 0.2:
+                i = r.choice([-1, n, n + 5])       # defined for struct arrays: message on stderr, NULL / no effect
+                self.h.c("ag %d %d" % (s, i), "NULL", n)
+                self.count("ag", "t")
+                return True
+            if n == 0:
+                return False
+            i = self.index(n)
+            self.h.c("ag %d %d" % (s, i), d["items"][i], n)
+            self.count("ag", d["k"])
+            return True
+        if k < 0.60:
+            if d["k"] == "t" and d["ssize"] is not None and r.random() < 0.15:
+                tok, shown = self.value(s)
+                self.h.c("as %d %d %s" % (s, r.choice([-1, n, n + 3]), tok), "ok", n)
+                self.count("as", "t")
+                return True
+            if n == 0:
+                return False
+            v = self.value(s)
+            if v is None:
+                return False
+            i = self.index(n)
+            d["items"][i] = v[1]
+            self.h.c("as %d %d %s" % (s, i, v[0]), "ok", n)
+            self.count("as", d["k"])
+            return True
+        if k < 0.68:
+            if n == 0:
+                return False
+            i = self.index(n)
+            del d["items"][i]
+            self.h.c("ar %d %d" % (s, i), "same", n - 1)
+            self.count("ar", d["k"])
+            return True
+        if k < 0.70:
+            d["items"] = []
+            self.h.c("ax %d" % s, "ok", 0)
+            self.count("ax", d["k"])
+            return True
+        if k < 0.74:
+            want = r.choice([-1, 0, n, n + 1, 8, 9, 16, 17, 2 * n + 3, r.choice(BOUNDARY_LENS), 2000])
+            self.h.c("av %d %d" % (s, want), "ok", n)
+            self.count("av", d["k"])
+            return True
+        if k < 0.79:
+            if d["k"] == "t":
+                return False             # dyn_array_clone of an inline-struct array: known defect, see DIRECTED_HISTORIES
+            t = self.free_slot()
+            if t is None:
+                return False
+            self.slots[t] = {"k": d["k"], "items": list(d["items"]), "ssize": d["ssize"]}
+            self.h.c("ak %d %d" % (t, s), "ok", n)
+            self.count("ak", d["k"])
+            return True
+        if k < 0.86:
+            t = self.free_slot()
+            if t is None:
+                return False
+            st = r.choice([0, n, n // 2, r.randint(0, n)])
+            ln = r.choice([0, 1, n - st, max(0, n - st - 1), n - st + 1, n + 7, 1 << 62])
+            part = d["items"][st:st + ln]
+            self.slots[t] = {"k": d["k"], "items": list(part), "ssize": d["ssize"] if part else None}
+            self.h.c("al %d %d %d %d" % (t, s, st, ln), "ok", len(part))
+            self.count("al", d["k"])
+            return True
+        if k < 0.88:
+            self.h.c("aq %d" % s, "type %d" % self.TYPE_NO[d["k"]], n)
+            self.count("aq", d["k"])
+            return True
+        if k < 0.93:
+            self.dump(s)
+            return True
+        if k < 0.95:
+            # the mark phase walks nested arrays; inline-struct arrays with elements smaller than a pointer are a
+            # known defect of gc_mark (see DIRECTED_HISTORIES) and keep the random workload from collecting
+            if any(x["k"] == "t" and x["items"] and (x["ssize"] or 0) < 8 for x in self.slots.values()):
+                return False
+            self.h.x("gc", "ok", " | live=%d" % len(self.slots))
+            self.ops["collect_cycles.-"] = self.ops.get("collect_cycles.-", 0) + 1
+            return True
+        if k < 0.98:
+            if self.referenced(s):
+                return False
+            del self.slots[s]
+            self.h.x("af %d" % s, "ok")
+            self.count("af", d["k"])
+            return True
+        return self.new()
+
+    def burst(self):
+        """push up to just past a capacity boundary, or drain to empty (and once more)"""
+        r = self.r
+        if not self.slots:
+            return
+        s = r.choice(list(self.slots))
+        d = self.slots[s]
+        n = len(d["items"])
+        if r.random() < 0.7:
+            targets = [b + 1 for b in BOUNDARY_LENS if b + 1 > n and (b + 1 - n) * 1.3 <= self.room()]
+            if not targets:
+                return
+            t = r.choice(targets[-4:])
+            while len(d["items"]) < t and self.room() > 0:
+                if not self.push(s):
+                    return
+                m = len(d["items"])
+                if m in (8, 9, 16, 17, 32, 33, 64, 65, 128, 129, 256, 257, 512, 513) and r.random() < 0.6:
+                    self.dump(s)
+        else:
+            while d["items"] and self.room() > 1:
+                self.pop(s)
+            if not d["items"]:
+                self.pop(s)
+
+    def room(self):
+        """operations left before the closing sequence (contents + release of every array + collect)"""
+        return self.nops - len(self.h.lines) - 2 * len(self.slots) - 3
+
+    def run(self):
+        r = self.r
+        self.new()
+        guard = 0
+        while self.room() > 0 and guard < self.nops * 6:
+            guard += 1
+            if r.random() < 0.12:
+                self.burst()
+                continue
+            before = len(self.h.lines)
+            self.step()
+            if len(self.h.lines) > before and self.slots and r.random() < 0.5 and self.room() > 0:
+                # contents after the step while the array is small
+                s = r.choice(list(self.slots))
+                if len(self.slots[s]["items"]) <= 12:
+                    self.dump(s)
+        for s in sorted(self.slots):
+            self.dump(s)
+        # release everything (parents before the arrays they refer to)
+        order = sorted(self.slots, key=lambda x: 0 if self.slots[x]["k"] == "a" else 1)
+        for s in order:
+            k = self.slots.pop(s)["k"]
+            self.h.x("af %d" % s, "ok")
+            self.count("af", k)
+        self.h.x("gc", "ok", " | live=0")
+        return self.ops
+
+
+# ---- list_int / list_string -----------------------------------------------------------------------------------------
+class ListGen:
+    def __init__(self, r, h, nops):
+        self.r = r
+        self.h = h
+        self.nops = nops
+        self.slots = {}      # slot -> {"k": "l"|"m", "items": [...]}
+        self.ops = {}
+
+    def count(self, op):
+        key = "%s.%s" % (OPNAMES[op], "int" if op[0] == "l" else "string")
+        self.ops[key] = self.ops.get(key, 0) + 1
+        self.h.elem_kinds.add("list_int" if op[0] == "l" else "list_string")
+
+    def val(self, p):
+        r = self.r
+        if p == "l":
+            v = r.choice(BOUNDARY_INTS) if r.random() < 0.4 else r.randint(-1000, 1000)
+            return str(v)
+        return hx(rand_cstr(r))
+
+    def emit(self, p, op, s, args, result):
+        line = ("%s%s %d %s" % (p, op, s, " ".join(str(a) for a in args))).rstrip()
+        self.h.c(line, result, len(self.slots[s]["items"]))
+        self.count(p + op)
+
+    def new(self):
+        c = [s for s in range(8) if s not in self.slots]
+        if not c:
+            return
+        s = self.r.choice(c)
+        p = self.r.choice("lm")
+        self.slots[s] = {"k": p, "items": []}
+        if self.r.random() < 0.5:
+            self.emit(p, "n", s, [], "ok")
+        else:
+            self.emit(p, "c", s, [self.r.choice([0, 1, 2, 7, 8, 9, 33])], "ok")
+
+    def step(self):
+        r = self.r
+        if not self.slots or r.random() < 0.03:
+            self.new()
+            return
+        s = r.choice(list(self.slots))
+        d = self.slots[s]
+        p, it = d["k"], d["items"]
+        n = len(it)
+        k = r.random()
+        if k < 0.30:
+            v = self.val(p)
+            it.append(v)
+            self.emit(p, "p", s, [v], "ok")
+        elif k < 0.40 and n:
+            v = it.pop()
+            self.emit(p, "o", s, [], v)
+        elif k < 0.52:
+            i = r.choice([0, n, n // 2, r.randint(0, n)])
+            v = self.val(p)
+            it.insert(i, v)
+            self.emit(p, "i", s, [i, v], "ok")
+        elif k < 0.62 and n:
+            i = r.choice([0, n - 1, r.randrange(n)])
+            v = it.pop(i)
+            self.emit(p, "r", s, [i], v)
+        elif k < 0.72 and n:
+            i = r.choice([0, n - 1, r.randrange(n)])
+            v = self.val(p)
+            it[i] = v
+            self.emit(p, "s", s, [i, v], "ok")
+        elif k < 0.82 and n:
+            i = r.choice([0, n - 1, r.randrange(n)])
+            self.emit(p, "g", s, [i], it[i])
+        elif k < 0.84:
+            del it[:]
+            self.emit(p, "x", s, [], "ok")
+        elif k < 0.88:
+            self.emit(p, "q", s, [], "empty %d" % (0 if n else 1))
+        elif k < 0.96:
+            self.emit(p, "d", s, [], "[%s]" % " ".join(it))
+        elif k < 0.98:
+            del self.slots[s]
+            self.h.x("%sf %d" % (p, s), "ok")
+            self.count(p + "f")
+
+    def run(self):
+        r = self.r
+        self.new()
+        guard = 0
+
+        def room():
+            return self.nops - len(self.h.lines) - 2 * len(self.slots) - 2
+        while room() > 0 and guard < self.nops * 5:
+            guard += 1
+            if r.random() < 0.08 and self.slots:
+                s = r.choice(list(self.slots))
+                d = self.slots[s]
+                targets = [b + 1 for b in BOUNDARY_LENS if b + 1 > len(d["items"]) and b + 2 - len(d["items"]) <= room()]
+                if targets:
+                    t = r.choice(targets[-3:])
+                    while len(d["items"]) < t:
+                        v = self.val(d["k"])
+                        if r.random() < 0.7:
+                            d["items"].append(v)
+                            self.emit(d["k"], "p", s, [v], "ok")
+                        else:
+                            i = r.randint(0, len(d["items"]))
+                            d["items"].insert(i, v)
+                            self.emit(d["k"], "i", s, [i, v], "ok")
+                    self.emit(d["k"], "d", s, [], "[%s]" % " ".join(d["items"]))
+                continue
+            self.step()
+        for s in sorted(self.slots):
+            d = self.slots[s]
+            self.emit(d["k"], "d", s, [], "[%s]" % " ".join(d["items"]))
+        for s in sorted(self.slots):
+            p = self.slots.pop(s)["k"]
+            self.h.x("%sf %d" % (p, s), "ok")
+            self.count(p + "f")
+        return self.ops
+
+
+# ---- gc: reference-count model ---------------------------------------------------------------------------------------
+class GCGen:
+    """objects: slot -> {"k": 'S'|'s'|'a', "rc": int, "ext": references held by the driver, "f": fields}
+    a field is None (never set), ("i", v) or ("r", slot).  An operation needs a reference of the driver on every object
+    it passes (ext >= 1): the API does not promise anything for borrowed pointers that may die during the call."""
+
+    def __init__(self, r, h, nops):
+        self.r = r
+        self.h = h
+        self.nops = nops
+        self.o = {}
+        self.dead = set()
+        self.live = 0
+        self.ops = {}
+
+    def count(self, op):
+        key = "%s.gc" % OPNAMES[op]
+        self.ops[key] = self.ops.get(key, 0) + 1
+        self.h.elem_kinds.add("gc")
+
+    def emit(self, line, result="ok"):
+        self.h.x(line, result, " | live=%d" % self.live)
+        self.count(op_of(line))
+
+    def release(self, s):
+        d = self.o[s]
+        d["rc"] -= 1
+        if d["rc"] == 0:
+            self.live -= 1
+            self.dead.add(s)
+            fields = d["f"]
+            del self.o[s]
+            for f in fields or []:
+                if f and f[0] == "r" and f[1] in self.o:
+                    self.release(f[1])
+
+    def owned(self, kind=None):
+        return [s for s, d in self.o.items() if d["ext"] >= 1 and (kind is None or d["k"] == kind)]
+
+    def free_slot(self):
+        c = [s for s in range(NSLOT_PY) if s not in self.o and s not in self.dead]
+        return self.r.choice(c) if c else None
+
+    def alloc(self):
+        r = self.r
+        s = self.free_slot()
+        if s is None:
+            return False
+        k = r.random()
+        if k < 0.7:
+            n = r.choice([0, 1, 1, 2, 2, 3, 4, 6])
+            self.o[s] = {"k": "S", "rc": 1, "ext": 1, "f": [None] * n, "name": "S%d" % s}
+            self.live += 1
+            self.emit("gn %d %d" % (s, n))
+        elif k < 0.85:
+            self.o[s] = {"k": "s", "rc": 1, "ext": 1, "f": None}
+            self.live += 1
+            self.emit("gs %d %d" % (s, r.choice([0, 1, 7, 8, 31, 100, 5000])))
+        else:
+            self.o[s] = {"k": "a", "rc": 1, "ext": 1, "f": None}
+            self.live += 1
+            self.emit("ga %d" % s)
+        return True
+
+    def query(self, s):
+        if s in self.o:
+            self.h.x("gq %d" % s, "live rc=%d" % self.o[s]["rc"])
+        else:
+            self.h.x("gq %d" % s, "dead")
+        self.count("gq")
+
+    def step(self):
+        r = self.r
+        k = r.random()
+        structs = [s for s in self.owned("S") if self.o[s]["f"]]
+        if k < 0.18 or not self.o:
+            return self.alloc()
+        if k < 0.42 and structs:
+            s = r.choice(structs)
+            d = self.o[s]
+            f = r.randrange(len(d["f"]))
+            c = r.choice(self.owned())
+            old = d["f"][f]
+            # new value first in the model too: the order only matters for the directed defect (same child, last reference)
+            self.o[c]["rc"] += 1
+            d["f"][f] = ("r", c)
+            if old and old[0] == "r":
+                self.release(old[1])
+            self.emit("gf %d %d %d" % (s, f, c))
+            return True
+        if k < 0.50 and structs:
+            s = r.choice(structs)
+            d = self.o[s]
+            f = r.randrange(len(d["f"]))
+            v = r.choice([0, 1, -1, 123456789, I64_MAX, I64_MIN])
+            old = d["f"][f]
+            d["f"][f] = ("i", v)
+            if old and old[0] == "r":
+                self.release(old[1])
+            self.emit("gi %d %d %d" % (s, f, v))
+            return True
+        if k < 0.58 and structs:
+            s = r.choice(structs)
+            d = self.o[s]
+            f = r.randrange(len(d["f"]))
+            v = d["f"][f]
+            self.emit("gg %d %d" % (s, f), "int 0" if v is None else "int %d" % v[1] if v[0] == "i" else "ref @%d" % v[1])
+            return True
+        if k < 0.61 and structs:
+            s = r.choice(structs)
+            d = self.o[s]
+            f = r.randrange(len(d["f"]) + 1)
+            self.emit("gx %d %d" % (s, f), "index %d" % (f if f < len(d["f"]) and d["f"][f] is not None else -1))
+            return True
+        if k < 0.69 and self.owned():
+            s = r.choice(self.owned())
+            self.o[s]["rc"] += 1
+            self.o[s]["ext"] += 1
+            self.emit("gr %d" % s)
+            return True
+        if k < 0.83 and self.owned():
+            s = r.choice(self.owned())
+            self.o[s]["ext"] -= 1
+            self.release(s)
+            self.emit("gl %d" % s)
+            return True
+        if k < 0.87:
+            self.emit("gc")
+            return True
+        if k < 0.91:
+            full = [s for s in self.owned("S") if all(f is not None for f in self.o[s]["f"])]
+            t = self.free_slot()
+            if not full or t is None:
+                return False
+            s = r.choice(full)
+            self.o[t] = {"k": "S", "rc": 1, "ext": 1, "f": list(self.o[s]["f"]), "name": self.o[s]["name"]}
+            self.live += 1
+            for f in self.o[t]["f"]:
+                if f[0] == "r":
+                    self.o[f[1]]["rc"] += 1
+            self.emit("gk %d %d" % (t, s))
+            return True
+        if k < 0.96:
+            c = list(self.o) + list(self.dead)
+            self.query(r.choice(c))
+            return True
+        if self.o:
+            s = r.choice(list(self.o))
+            d = self.o[s]
+            if d["k"] == "S":
+                self.emit("gw %d" % s, "struct %s %d" % (d["name"], len(d["f"])))
+            elif d["k"] == "s":
+                return False
+            else:
+                return False
+            return True
+        return False
+
+    def run(self):
+        self.alloc()
+        guard = 0
+        while guard < self.nops * 5:
+            guard += 1
+            closing = sum(d["ext"] for d in self.o.values()) + len(self.o) + len(self.dead) + 3
+            if self.nops - len(self.h.lines) - closing <= 0:
+                break
+            self.step()
+        # drop every reference the driver holds, then ask about every object ever made
+        for s in sorted(self.owned()):
+            while s in self.o and self.o[s]["ext"] >= 1:
+                self.o[s]["ext"] -= 1
+                self.release(s)
+                self.emit("gl %d" % s)
+        self.emit("gc")
+        for s in sorted(list(self.o) + list(self.dead)):
+            self.query(s)
+        return self.ops
+
+
+NSLOT_PY = 32
+
+
+# ---- nl_string_t: byte-string model ----------------------------------------------------------------------------------
+def utf8_segments(data):
+    """the runtime's notion of well-formed UTF-8 (lead byte gives the length, continuation bytes are 10xxxxxx):
+    list of the byte sequences of the characters, or None"""
+    out = []
+    i, n = 0, len(data)
+    while i < n:
+        b = data[i]
+        ln = 1 if b < 0x80 else 2 if b & 0xE0 == 0xC0 else 3 if b & 0xF0 == 0xE0 else 4 if b & 0xF8 == 0xF0 else 0
+        if ln == 0 or i + ln > n:
+            return None
+        if any(data[i + j] & 0xC0 != 0x80 for j in range(1, ln)):
+            return None
+        out.append(data[i:i + ln])
+        i += ln
+    return out
+
+
+def decode_cp(seg):
+    if len(seg) == 1:
+        return seg[0]
+    if len(seg) == 2:
+        return ((seg[0] & 0x1F) << 6) | (seg[1] & 0x3F)
+    if len(seg) == 3:
+        return ((seg[0] & 0x0F) << 12) | ((seg[1] & 0x3F) << 6) | (seg[2] & 0x3F)
+    return ((seg[0] & 0x07) << 18) | ((seg[1] & 0x3F) << 12) | ((seg[2] & 0x3F) << 6) | (seg[3] & 0x3F)
+
+
+def rand_text(r, allow_nul=True):
+    k = r.random()
+    if k < 0.1:
+        return b""
+    if k < 0.5:
+        return rand_bytes(r, r.randint(1, 20), "ascii")
+    if k < 0.8:
+        parts = []
+        for _ in range(r.randint(1, 10)):
+            parts.append(r.choice([b"a", b"Z", b"\xc3\xa9", b"\xe2\x82\xac", b"\xf0\x9f\x91\x8b", b" ", b"\xd0\x96", b"0"]))
+        return b"".join(parts)
+    if k < 0.92:
+        b = bytes(r.randint(0 if allow_nul else 1, 255) for _ in range(r.randint(1, 16)))
+        return b
+    return rand_bytes(r, r.choice([63, 64, 65, 255, 256, 1000]), "ascii")
+
+
+class StrGen:
+    """slot -> {"d": bytes, "u": True|False|None (is_utf8 flag; None = not determined by the documentation), "nt": bool}"""
+
+    def __init__(self, r, h, nops):
+        self.r = r
+        self.h = h
+        self.nops = nops
+        self.s = {}
+        self.ops = {}
+
+    def count(self, op):
+        key = "%s.nl_string" % OPNAMES[op]
+        self.ops[key] = self.ops.get(key, 0) + 1
+        self.h.elem_kinds.add("nl_string")
+
+    def state(self, s):
+        d = self.s.get(s)
+        if d is None:
+            return " | null"
+        t = " | %s len=%d capok=1 nt=%d" % (hx(d["d"]), len(d["d"]), 1 if d["nt"] else 0)
+        if d["nt"]:
+            t += " z=1"
+        return t
+
+    def emit(self, line, result, s):
+        self.h.x(line, result, self.state(s))
+        self.count(op_of(line))
+        if s in self.s and len(self.s[s]["d"]) > self.h.maxlen:
+            self.h.maxlen = len(self.s[s]["d"])
+
+    def free_slot(self):
+        c = [x for x in range(12) if x not in self.s]
+        return self.r.choice(c) if c else None
+
+    def make(self):
+        r = self.r
+        t = self.free_slot()
+        if t is None:
+            return False
+        k = r.random()
+        if k < 0.35:
+            b = rand_text(r, allow_nul=False)
+            self.s[t] = {"d": b, "u": None, "nt": True}
+            self.emit("sn %d %s" % (t, hx(b)), "ok", t)
+        elif k < 0.6:
+            b = rand_text(r)
+            self.s[t] = {"d": b, "u": None, "nt": False}
+            self.emit("sb %d %s" % (t, hx(b)), "ok", t)
+        elif k < 0.8:
+            b = rand_text(r)
+            if utf8_segments(b) is not None:
+                self.s[t] = {"d": b, "u": True, "nt": False}
+                self.emit("su %d %s" % (t, hx(b)), "ok", t)
+            else:
+                self.emit("su %d %s" % (t, hx(b)), "NULL", t)
+        else:
+            self.s[t] = {"d": b"", "u": True, "nt": False}
+            self.emit("sw %d %d" % (t, r.choice([0, 1, 8, 16, 100])), "ok", t)
+        return True
+
+    def step(self):
+        r = self.r
+        if not self.s or r.random() < 0.12:
+            return self.make()
+        a = r.choice(list(self.s))
+        d = self.s[a]
+        n = len(d["d"])
+        k = r.random()
+        if k < 0.12:
+            t = self.free_slot()
+            if t is None:
+                return False
+            b = r.choice(list(self.s))
+            e = self.s[b]
+            if n + len(e["d"]) > 20000:
+                return False
+            u = False if (d["u"] is False or e["u"] is False) else True if (d["u"] and e["u"]) else None
+            self.s[t] = {"d": d["d"] + e["d"], "u": u, "nt": True}
+            self.emit("sc %d %d %d" % (t, a, b), "ok", t)
+            return True
+        if k < 0.26:
+            t = self.free_slot()
+            if t is None:
+                return False
+            st = r.choice([0, n, n + 1, n // 2, r.randint(0, n + 2), max(0, n - 1)])
+            ln = r.choice([0, 1, n, max(0, n - st), max(0, n - st) + 1, r.randint(0, n + 3), 1 << 62])
+            if st >= n:
+                self.s[t] = {"d": b"", "u": True, "nt": False}
+            else:
+                part = d["d"][st:st + ln]
+                u = (utf8_segments(part) is not None) if d["u"] is True else False if d["u"] is False else None
+                self.s[t] = {"d": part, "u": u, "nt": False}
+            self.emit("ss %d %d %d %d" % (t, a, st, ln), "ok", t)
+            return True
+        if k < 0.36:
+            if d["u"] is None:
+                return False
+            t = self.free_slot()
+            if t is None:
+                return False
+            if d["u"] is False:
+                self.emit("sU %d %d %d %d" % (t, a, r.randint(0, 3), r.randint(0, 3)), "NULL", t)
+                return True
+            segs = utf8_segments(d["d"])
+            m = len(segs)
+            cs = r.choice([0, m, m // 2, r.randint(0, m + 1)])
+            cl = r.choice([1, 2, m, max(0, m - cs), r.randint(0, m + 2), 1 << 62])
+            if cs == 0 and cl == 0:
+                return False              # known defect (returns the whole string): see DIRECTED_HISTORIES
+            part = b"".join(segs[cs:cs + cl])
+            self.s[t] = {"d": part, "u": True, "nt": False}
+            self.emit("sU %d %d %d %d" % (t, a, cs, cl), "ok", t)
+            return True
+        if k < 0.42:
+            t = self.free_slot()
+            if t is None:
+                return False
+            self.s[t] = dict(d)
+            self.emit("sk %d %d" % (t, a), "ok", t)
+            return True
+        if k < 0.50:
+            v = utf8_segments(d["d"]) is not None
+            d["u"] = v
+            self.emit("sv %d" % a, "valid %d" % (1 if v else 0), a)
+            return True
+        if k < 0.56:
+            if d["u"] is None:
+                return False
+            self.emit("sl %d" % a, "utf8len %d" % (len(utf8_segments(d["d"])) if d["u"] else -1), a)
+            return True
+        if k < 0.62:
+            if d["u"] is None:
+                return False
+            if not d["u"]:
+                self.emit("sa %d %d" % (a, r.randint(0, 3)), "cp -1", a)
+                return True
+            segs = utf8_segments(d["d"])
+            i = r.choice([0, len(segs), max(0, len(segs) - 1), r.randint(0, len(segs) + 1)])
+            self.emit("sa %d %d" % (a, i), "cp %d" % (decode_cp(segs[i]) if i < len(segs) else -1), a)
+            return True
+        if k < 0.68:
+            i = r.choice([0, n, max(0, n - 1), r.randint(0, n + 2), 1 << 63])
+            self.emit("sy %d %d" % (a, i), "ok %d" % d["d"][i] if i < n else "oob 0", a)
+            return True
+        if k < 0.71:
+            if n == 0:
+                return False
+            i = r.choice([0, n - 1, r.randrange(n)])
+            self.emit("sY %d %d" % (a, i), "byte %d" % d["d"][i], a)
+            return True
+        if k < 0.76:
+            self.emit("sr %d %d" % (a, r.choice([0, 1, n, n + 1, 2 * n + 8, 64, 4096])), "capge 1", a)
+            return True
+        if k < 0.80:
+            if n == 0 and not d["nt"]:
+                return False              # known defect (realloc(p, 0) frees the buffer): see DIRECTED_HISTORIES
+            self.emit("sh %d" % a, "ok", a)
+            return True
+        if k < 0.85:
+            d["nt"] = True
+            self.emit("sz %d" % a, hx(d["d"].split(b"\0")[0]), a)
+            return True
+        if k < 0.87:
+            d["nt"] = True
+            self.emit("sZ %d" % a, "ok", a)
+            return True
+        if k < 0.89:
+            self.emit("sB %d" % a, hx(d["d"]), a)
+            return True
+        if k < 0.93:
+            b = r.choice(list(self.s))
+            self.emit("se %d %d" % (a, b), "eq %d" % (1 if d["d"] == self.s[b]["d"] else 0), a)
+            return True
+        if k < 0.96:
+            c = d["d"] if (r.random() < 0.5 and b"\0" not in d["d"]) else rand_text(r, allow_nul=False)
+            self.emit("sE %d %s" % (a, hx(c)), "eq %d" % (1 if d["d"] == c else 0), a)
+            return True
+        del self.s[a]
+        self.h.x("sf %d" % a, "ok")
+        self.count("sf")
+        return True
+
+    def run(self):
+        self.make()
+        guard = 0
+        while self.nops - len(self.h.lines) - 2 * len(self.s) - 2 > 0 and guard < self.nops * 5:
+            guard += 1
+            self.step()
+        for a in sorted(self.s):
+            self.emit("sd %d" % a, "ok", a)
+        for a in sorted(self.s):
+            del self.s[a]
+            self.h.x("sf %d" % a, "ok")
+            self.count("sf")
+        return self.ops
+
+
+# ---- stateless string helpers: nl_cstr_* of the runtime and the helpers nanoc emits into every program ----------------
+class CStrGen:
+    def __init__(self, r, h, nops):
+        self.r = r
+        self.h = h
+        self.nops = nops
+        self.ops = {}
+
+    def emit(self, line, result):
+        self.h.x(line, result)
+        op = op_of(line)
+        key = "%s.%s" % (OPNAMES[op], CONTAINER[op[0]])
+        self.ops[key] = self.ops.get(key, 0) + 1
+        self.h.elem_kinds.add(CONTAINER[op[0]])
+
+    def run(self):
+        r = self.r
+        pool = [rand_cstr(r) for _ in range(6)]
+        while len(self.h.lines) <= self.nops:
+            a = r.choice(pool) if r.random() < 0.7 else rand_cstr(r)
+            b = r.choice(pool) if r.random() < 0.6 else rand_cstr(r)
+            if r.random() < 0.3 and len(a) > 2:
+                st = r.randrange(len(a))
+                b = a[st:st + r.randint(1, 4)]
+            n = len(a)
+            k = r.random()
+            if len(a) + len(b) > self.h.maxlen:
+                self.h.maxlen = len(a) + len(b)
+            if k < 0.10:
+                self.emit("cc %s %s" % (hx(a), hx(b)), hx(a + b))
+            elif k < 0.24:
+                st = r.choice([0, -1, n, n + 1, n // 2, max(0, n - 1), I64_MIN, r.randint(-2, n + 2)])
+                ln = r.choice([0, 1, -1, n, n + 1, max(0, n - st), r.randint(0, n + 3), 1 << 62, I64_MIN])
+                s0 = max(st, 0)
+                res = b"" if (s0 >= n or ln <= 0) else a[s0:s0 + ln]
+                self.emit("cs %s %d %d" % (hx(a), st, ln), hx(res))
+            elif k < 0.30:
+                self.emit("cn %s %s" % (hx(a), hx(b)), "1" if b in a else "0")
+            elif k < 0.36:
+                self.emit("ci %s %s" % (hx(a), hx(b)), str(a.find(b)))
+            elif k < 0.44:
+                i = r.choice([0, -1, n, n - 1, n + 1, I64_MAX, I64_MIN, r.randint(-1, n + 1)])
+                self.emit("ch %s %d" % (hx(a), i), str(a[i]) if 0 <= i < n else "-1")
+            elif k < 0.48:
+                self.emit("cl %s" % hx(a), str(n))
+            elif k < 0.52:
+                c = r.choice([1, 65, 127, 128, 255, r.randint(1, 255)])
+                self.emit("cf %d" % c, hx(bytes([c])))
+            elif k < 0.62:
+                self.emit("pc %s %s" % (hx(a), hx(b)), hx(a + b))
+            elif k < 0.76:
+                # documented domain of str_substring: start in [0, len], length >= 0; over-long lengths end at the end
+                st = r.choice([0, n, n // 2, max(0, n - 1), r.randint(0, n)])
+                ln = r.choice([0, 1, n, n + 1, max(0, n - st), r.randint(0, n + 3), 1 << 62] + ([I64_MAX] if st == 0 else []))
+                self.emit("ps %s %d %d" % (hx(a), st, ln), hx(a[st:st + ln]))
+            elif k < 0.80:
+                self.emit("pn %s %s" % (hx(a), hx(b)), "1" if b in a else "0")
+            elif k < 0.84:
+                b2 = a if r.random() < 0.4 else b
+                self.emit("pe %s %s" % (hx(a), hx(b2)), "1" if a == b2 else "0")
+            elif k < 0.90:
+                v = r.choice(BOUNDARY_INTS) if r.random() < 0.5 else r.randint(-10 ** 9, 10 ** 9)
+                self.emit("pi %d" % v, hx(str(v).encode()))
+            elif k < 0.94:
+                v = r.choice(BOUNDARY_INTS) if r.random() < 0.5 else r.randint(-10 ** 9, 10 ** 9)
+                self.emit("pt %s" % hx(str(v).encode()), str(v))
+            elif k < 0.98:
+                if n == 0:
+                    continue
+                i = r.choice([0, n - 1, r.randrange(n)])
+                self.emit("ph %s %d" % (hx(a), i), str(a[i]))
+            else:
+                c = r.choice([1, 65, 126, 127, 200, 255])
+                self.emit("pf %d" % c, hx(bytes([c])))
+        return self.ops
+
+
+FAMILIES = [("dyn_array", DAGen, 0.46), ("list", ListGen, 0.14), ("gc", GCGen, 0.18), ("nl_string", StrGen, 0.14), ("cstr", CStrGen, 0.08)]
+
+
+def history_length(r, maxlen):
+    k = r.random()
+    if k < 0.15:
+        return r.randint(3, 19)
+    if k < 0.55:
+        return r.randint(20, max(21, maxlen // 4))
+    if k < 0.9:
+        return r.randint(max(21, maxlen // 4), maxlen)
+    return maxlen
+
+
+def make_history(hid, seed, maxlen):
+    r = random.Random(seed)
+    k = r.random()
+    acc = 0.0
+    fam, cls = FAMILIES[0][0], FAMILIES[0][1]
+    for name, c, w in FAMILIES:
+        acc += w
+        if k < acc:
+            fam, cls = name, c
+            break
+    h = Hist(hid, fam)
+    n = history_length(r, maxlen)
+    if fam == "dyn_array" and r.random() < 0.35:
+        g = cls(r, h, n, kinds=r.choice(["s", "a", "t", "i", "f", "sa", "ub"]))     # single-kind histories reach larger sizes
+    else:
+        g = cls(r, h, n)
+    h.ops = g.run()
+    return h
+
+
+# directed histories: each reproduces one known defect with a short, fixed sequence inside the API's domain.
+# (name, family, [(line, expected record without the leading line)])
+def _dh(lines):
+    return lines
+
+
+DIRECTED_HISTORIES = {
+    # dyn_array_clone() of an inline-struct array copies into a store that was never allocated (elem_size is not copied)
+    "clone_struct_array": ["an 0 t", "ap 0 1122334455667788", "ap 0 0102030405060708", "ap 0 a1a2a3a4a5a6a7a8", "ak 1 0", "ad 1", "ad 0"],
+    # elem_size is a uint8_t: a struct of 256 bytes does not fit
+    "struct_size_256": ["an 0 t", "ap 0 " + "ab" * 256, "ag 0 0"],
+    # gc_mark() reads an inline-struct array as an array of pointers
+    "collect_small_struct_array": ["an 0 t", "ap 0 01020304", "ap 0 05060708", "ap 0 090a0b0c", "ap 0 0d0e0f10", "ap 0 11121314", "gc", "ad 0"],
+    # gc_struct_set_field() releases the old value before it retains the new one
+    "set_field_same_child": ["gn 0 1", "gn 1 0", "gf 0 0 1", "gl 1", "gf 0 0 1", "gq 1", "gg 0 0"],
+    # gc_struct_clone() of a struct one of whose fields was never set
+    "clone_unset_field": ["gn 0 2", "gi 0 0 5", "gk 1 0", "gg 1 0", "gg 1 1"],
+    # nl_string_substring(): start + length wraps around
+    "substring_len_wrap": ["sn 0 68656c6c6f", "ss 1 0 1 18446744073709551615"],
+    # nl_string_utf8_substring(s, 0, 0) returns the whole string
+    "utf8_substring_0_0": ["sn 0 616263", "sv 0", "sU 1 0 0 0"],
+    # nl_string_shrink_to_fit() on an empty unterminated string: realloc(p, 0) frees the buffer, the string keeps the pointer
+    "shrink_empty": ["sw 0 16", "sh 0", "sr 0 8", "sf 0"],
+    # nl_cstr_substring(): start + len overflows
+    "cstr_substring_len_max": ["cs 68656c6c6f 1 9223372036854775807"],
+}
+
+
+def directed_expected(name, lines):
+    """expected records of a directed history, from the same models (replayed by hand here: tiny)"""
+    E = {
+        "clone_struct_array": ["ok | len=0", "same | len=1", "same | len=2", "same | len=3", "ok | len=3",
+                               "[1122334455667788 0102030405060708 a1a2a3a4a5a6a7a8] | len=3", "[1122334455667788 0102030405060708 a1a2a3a4a5a6a7a8] | len=3"],
+        "struct_size_256": ["ok | len=0", "same | len=1", "ab" * 256 + " | len=1"],
+        "collect_small_struct_array": ["ok | len=0", "same | len=1", "same | len=2", "same | len=3", "same | len=4", "same | len=5", "ok | live=1",
+                                       "[01020304 05060708 090a0b0c 0d0e0f10 11121314] | len=5"],
+        "set_field_same_child": ["ok | live=1", "ok | live=2", "ok | live=2", "ok | live=2", "ok | live=2", "live rc=1", "ref @1 | live=2"],
+        "clone_unset_field": ["ok | live=1", "ok | live=1", "ok | live=2", "int 5 | live=2", "int 0 | live=2"],
+        "substring_len_wrap": ["ok | 68656c6c6f len=5 capok=1 nt=1 z=1", "ok | 656c6c6f len=4 capok=1 nt=0"],
+        "utf8_substring_0_0": ["ok | 616263 len=3 capok=1 nt=1 z=1", "valid 1 | 616263 len=3 capok=1 nt=1 z=1", "ok | - len=0 capok=1 nt=0"],
+        "shrink_empty": ["ok | - len=0 capok=1 nt=0", "ok | - len=0 capok=1 nt=0", "capge 1 | - len=0 capok=1 nt=0", "ok"],
+        "cstr_substring_len_max": ["656c6c6f"],
+    }[name]
+    h = Hist("d-" + name, "directed")
+    for line, e in zip(lines, E):
+        if " | len=" in e and line[0] == "a":
+            res, ln = e.rsplit(" | len=", 1)
+            h.c(line, res, int(ln))
+        else:
+            h.lines.append(line)
+            h.exp.append(("x", "%s = %s" % (line, e)))
+    return h
+
+
+# failure cells: one out-of-range operation each; the process must end in the defined way and without a memory error
+FAILURE_CELLS = {
+    "list_int.pop_empty": (["ln 0", "lo 0"], "exit"), "list_int.get_len": (["ln 0", "lp 0 1", "lg 0 1"], "exit"),
+    "list_int.get_neg": (["ln 0", "lp 0 1", "lg 0 -1"], "exit"), "list_int.set_len": (["ln 0", "ls 0 0 5"], "exit"),
+    "list_int.insert_past": (["ln 0", "li 0 1 5"], "exit"), "list_int.remove_len": (["ln 0", "lp 0 1", "lr 0 1"], "exit"),
+    "list_string.pop_empty": (["mn 0", "mo 0"], "exit"), "list_string.get_len": (["mn 0", "mp 0 61", "mg 0 1"], "exit"),
+    "list_string.set_neg": (["mn 0", "mp 0 61", "ms 0 -1 62"], "exit"), "list_string.insert_past": (["mn 0", "mi 0 2 61"], "exit"),
+    "list_string.remove_len": (["mn 0", "mp 0 61", "mr 0 1"], "exit"),
+    "dyn_array.get_len": (["an 0 i", "ap 0 1", "ag 0 1"], "abort"), "dyn_array.get_neg": (["an 0 s", "ap 0 61", "ag 0 -1"], "abort"),
+    "dyn_array.set_len": (["an 0 f", "as 0 0 0000000000000000"], "abort"), "dyn_array.remove_empty": (["an 0 b", "ar 0 0"], "abort"),
+    "dyn_array.remove_len": (["an 0 a", "an 1 i", "ap 0 1", "ar 0 1"], "abort"), "dyn_array.push_wrong_kind": (["an 0 t", "ap 0 0102", "ap 0 010203"], "abort"),
+}
+
+
+def compare_history(h, actual):
+    """first disagreement between the expected records and the probe's records: None or (index, class, expected, got)"""
+    exp = h.exp
+    for i, e in enumerate(exp):
+        if i >= len(actual):
+            return i, "missing", e[1], None
+        got = actual[i]
+        if " = moved" in got:
+            got = got.replace(" = moved", " = same", 1)
+        if e[0] == "x":
+            if got != e[1]:
+                return i, record_class(e[1], got), e[1], got
+        else:
+            pre = e[1] + " cap="
+            if not got.startswith(pre):
+                return i, record_class(e[1], got), e[1], got
+            try:
+                cap = int(got[len(pre):])
+            except ValueError:
+                return i, "state", e[1], got
+            if cap < e[2]:
+                return i, "capacity<length", e[1], got
+    if len(actual) > len(exp):
+        return len(exp), "extra", None, actual[len(exp)]
+    return None
+
+
+def record_class(exp, got):
+    """which part of a record differs: result / length / contents / state"""
+    def parts(t):
+        head, _, state = t.partition(" | ")
+        line, _, res = head.partition(" = ")
+        return line, res, state
+    el, er, es = parts(exp)
+    gl, gr, gs = parts(got)
+    if el != gl:
+        return "echo"
+    if er != gr:
+        return "contents" if er.startswith("[") else "result"
+    m1 = re.search(r"len=(\d+)", es)
+    m2 = re.search(r"len=(\d+)", gs)
+    if m1 and m2 and m1.group(1) != m2.group(1):
+        return "length"
+    if op_of(el)[0] == "s" and es.split(" ")[0:1] != gs.split(" ")[0:1]:
+        return "contents"
+    return "state"
+
+
+def model_key(h, line, cls):
+    op = op_of(line)
+    cont = CONTAINER.get(op[0], "?")
+    if op == "gc":
+        cont = "gc"
+    return "model|%s|%s|%s" % (cont, OPNAMES.get(op, op), cls)
+
+
+def build_hist_probe(ctx, sc, asan):
+    """Build probes/rt_hist_probe.c the way nanoc builds a program: same wrapper, same flags, same runtime objects.
+    Returns (path of the binary, the command line)."""
+    d = sc.sub("histprobe")
+    engines.write_files(d, {"tiny.nano": 'fn main() -> int {\n    (println "tiny")\n    return 0\n}\nshadow main { assert true }\n'})
+    env = asan.fastcc_env({"TMPDIR": d})
+    r = sh([asan.nanoc, "tiny.nano", "-o", "tiny.bin", "--keep-c", "--verbose"], cwd=d, env=env, cpu=120, san=True)
+    m = re.search(r"^Compiling C code: (.*)$", r.text() + "\n" + r.errtext(), re.M)
+    ctx.require(r.rc == 0 and m is not None and os.path.exists(os.path.join(d, "tiny.bin.c")),
+                "could not obtain nanoc's C compiler command line / generated C for the history probe: rc=%s %s" % (r.rc, r.errtext()[-300:]))
+    args = shlex.split(m.group(1))
+    src = os.path.join(build.VERIF, "probes", "rt_hist_probe.c")
+    engines.write_files(d, {"hist_main.c": '#define main nlv_prelude_main\n#include "%s"\n#undef main\n#define NLV_HAVE_PRELUDE 1\n#include "%s"\n'
+                                           % (os.path.join(d, "tiny.bin.c"), src)})
+    out = []
+    skip = False
+    replaced = False
+    for a in args[1:]:
+        if skip:
+            skip = False
+            out.append("hist.bin")
+            continue
+        if a == "-o":
+            skip = True
+            out.append(a)
+            continue
+        if a.endswith(".c") and "tiny.bin" in os.path.basename(a):
+            out.append("hist_main.c")
+            replaced = True
+            continue
+        out.append(a)
+    ctx.require(replaced, "nanoc's compiler command line has an unexpected shape: %s" % m.group(1)[:300])
+    r2 = sh([args[0]] + out, cwd=d, env=env, cpu=300)
+    binp = os.path.join(d, "hist.bin")
+    ctx.require(r2.rc == 0 and os.path.exists(binp), "history probe failed to build: %s" % r2.errtext()[-1500:])
+    return binp, " ".join([args[0]] + out)
+
+
+def run_probe(binp, text, cwd):
+    return sh([binp], cwd=cwd, stdin=text.encode(), cpu=120, san=True, max_out=256 << 20)
+
+
+def judge_batch(binp, cwd, hists):
+    """run histories in one process (again from the next history on when the process ended early).
+    Returns [(history, verdict)] with verdict None (agrees) or dict(key, what, files)."""
+    out = []
+    todo = list(hists)
+    while todo:
+        text = "".join("\n".join(h.lines) + "\n" for h in todo)
+        r = run_probe(binp, text, cwd)
+        if r.timeout:
+            r = run_probe(binp, text, cwd)
+            if r.timeout:
+                for h in todo:
+                    out.append((h, {"inconclusive": "watchdog"}))
+                return out
+        lines = r.text().split("\n")
+        if lines and lines[-1] == "":
+            lines.pop()
+        elif lines and " = " not in lines[-1]:
+            lines.pop()                 # exit() inside an operation flushed the echo of the line without a result
+        pos = 0
+        died_at = None
+        for hi, h in enumerate(todo):
+            n = len(h.exp)
+            actual = lines[pos:pos + n]
+            last = (pos + n >= len(lines))
+            # records of this history: up to the next history header
+            complete = len(actual) == n
+            diff = compare_history(h, actual if complete else actual)
+            if diff is None:
+                out.append((h, None))
+                pos += n
+                continue
+            idx, cls, e, got = diff
+            line = h.lines[idx] if idx < len(h.lines) else "?"
+            files = {"history.txt": "\n".join(h.lines) + "\n", "expected.txt": "\n".join(x[1] for x in h.exp) + "\n",
+                     "observed.txt": "\n".join(actual) + "\n", "stderr.txt": r.err[-20000:]}
+            if cls == "missing" and last:
+                # the process ended while executing h.lines[idx]
+                sig = report_signature(r.errtext())
+                if sig is not None and sig[0] != "ABRT":
+                    v = {"key": san_key(sig), "what": "history %s (%s): sanitizer report %s in %s while executing `%s`\n%s"
+                         % (h.hid, h.family, sig[0], ",".join(sig[1]), line, (r.sanitizer_report() or "")[:1500]), "files": files}
+                elif sig is not None or r.sig == 6:
+                    v = {"key": model_key(h, line, abort_class(r.errtext())), "what": "history %s (%s): the runtime aborted (%s) while executing `%s`, "
+                         "which the model completes" % (h.hid, h.family, abort_class(r.errtext()), line), "files": files}
+                elif r.sig:
+                    v = {"key": "san|signal-%d|%s" % (r.sig, OPNAMES.get(op_of(line), "?")), "what": "history %s: killed by signal %d while executing `%s`"
+                         % (h.hid, r.sig, line), "files": files}
+                else:
+                    v = {"key": model_key(h, line, "exit"), "what": "history %s (%s): the process ended (exit %s: %s) while executing `%s`, which the "
+                         "model completes" % (h.hid, h.family, r.rc, r.errtext().strip()[-120:], line), "files": files}
+                out.append((h, v))
+                died_at = hi
+                break
+            v = {"key": model_key(h, line, cls), "what": "history %s (%s), step %d `%s`: %s differs\n  model:    %s\n  observed: %s"
+                 % (h.hid, h.family, idx, line, cls, e, got), "files": files}
+            out.append((h, v))
+            # resynchronise on the next history header
+            nxt = None
+            if hi + 1 < len(todo):
+                want = "H %s = start" % todo[hi + 1].hid
+                for j in range(pos, len(lines)):
+                    if lines[j] == want:
+                        nxt = j
+                        break
+            if nxt is None:
+                died_at = hi
+                break
+            pos = nxt
+        if died_at is None:
+            break
+        todo = todo[died_at + 1:]
+    return out
+
+
+def _hist_worker(args):
+    binp, cwd, items, maxlen = args
+    hists = [make_history(hid, seed, maxlen) for hid, seed in items]
+    res = judge_batch(binp, cwd, hists)
+    summary = {"ops": {}, "families": {}, "kinds": {}, "maxlen": {}, "hashes": [], "steps": 0, "verdicts": [], "inconclusive": 0, "sample": None}
+    for h, v in res:
+        summary["families"][h.family] = summary["families"].get(h.family, 0) + 1
+        for k, n in h.ops.items():
+            summary["ops"][k] = summary["ops"].get(k, 0) + n
+        for k in h.elem_kinds:
+            summary["kinds"][k] = summary["kinds"].get(k, 0) + 1
+        summary["steps"] += len(h.lines) - 1
+        if h.maxlen > summary["maxlen"].get(h.family, -1):
+            summary["maxlen"][h.family] = h.maxlen
+        if len(h.lines) - 1 >= 20 and v is None:
+            summary["hashes"].append(h.digest())
+        if v is not None:
+            if "inconclusive" in v:
+                summary["inconclusive"] += 1
+            else:
+                summary["verdicts"].append((v["key"], v["what"], v["files"]))
+        elif summary["sample"] is None and 8 <= len(h.lines) <= 40:
+            summary["sample"] = {"history": h.hid, "family": h.family, "records": [e[1] for e in h.exp[:14]]}
+    return summary
+
+
+def run_histories(ctx, sc, binp, n, maxlen, cov):
+    import concurrent.futures as cf
+    per = 25 if maxlen <= 200 else 40
+    items = [("%06d" % i, ctx.rng("hist", i).getrandbits(64)) for i in range(n)]
+    batches = [items[i:i + per] for i in range(0, n, per)]
+    cwd = sc.sub("histrun")
+    tot = {"ops": {}, "families": {}, "kinds": {}, "maxlen": {}, "steps": 0, "inconclusive": 0}
+    hashes = set()
+    samples = []
+    with cf.ProcessPoolExecutor(max_workers=min(16, os.cpu_count() or 4)) as ex:
+        for s in ex.map(_hist_worker, [(binp, cwd, b, maxlen) for b in batches], chunksize=1):
+            for k in ("ops", "families", "kinds"):
+                for a, b in s[k].items():
+                    tot[k][a] = tot[k].get(a, 0) + b
+            tot["steps"] += s["steps"]
+            tot["inconclusive"] += s["inconclusive"]
+            for a, b in s["maxlen"].items():
+                tot["maxlen"][a] = max(tot["maxlen"].get(a, 0), b)
+            hashes.update(s["hashes"])
+            if s["sample"] and len(samples) < 3 and all(x["family"] != s["sample"]["family"] for x in samples):
+                samples.append(s["sample"])
+            for key, what, files in s["verdicts"]:
+                ctx.violation(key, what, files)
+    cov["histories"] = n
+    cov["history_steps"] = tot["steps"]
+    cov["histories_by_family"] = tot["families"]
+    cov["history_operations_by_kind_and_element"] = dict(sorted(tot["ops"].items()))
+    cov["histories_touching_element_kind"] = tot["kinds"]
+    cov["max_length_reached"] = tot["maxlen"]      # elements (dyn_array, list), bytes (nl_string, cstr)
+    cov["histories_inconclusive_watchdog"] = tot["inconclusive"]
+    return hashes, samples
+
+
+def run_directed_histories(ctx, sc, binp, cov):
+    cwd = sc.sub("histrun")
+    out = {}
+    for name, lines in sorted(DIRECTED_HISTORIES.items()):
+        h = directed_expected(name, lines)
+        h.ops = {}
+        (h2, v), = judge_batch(binp, cwd, [h])[:1]
+        if v is None:
+            out[name] = "agrees"
+        elif "inconclusive" in v:
+            out[name] = "inconclusive"
+        else:
+            key = v["key"] + ("@" + name if v["key"].startswith("model|") else "")
+            out[name] = key
+            ctx.violation(key, "directed history %s: %s" % (name, v["what"]), v["files"])
+    cov["directed_histories"] = out
+
+
+def run_failure_cells(ctx, sc, binp, cov):
+    """one out-of-range operation per process: the defined failure (exit(1) + message, or the runtime's assert), never a
+    memory error"""
+    cwd = sc.sub("histrun")
+    out = {}
+    for name, (lines, how) in sorted(FAILURE_CELLS.items()):
+        text = "H f\n" + "\n".join(lines) + "\n"
+        r = run_probe(binp, text, cwd)
+        got = r.text().split("\n")
+        sig = report_signature(r.errtext())
+        files = {"history.txt": text, "observed.txt": r.out, "stderr.txt": r.err[-8000:]}
+        reached = len([g for g in got if " = " in g]) == len(lines)         # header + all but the failing operation
+        if sig is not None and sig[0] != "ABRT":
+            out[name] = "sanitizer-report"
+            ctx.violation(san_key(sig), "failure cell %s: sanitizer report %s in %s\n%s" % (name, sig[0], ",".join(sig[1]), (r.sanitizer_report() or "")[:1200]), files)
+        elif how == "exit" and r.rc == 1 and reached and "Error:" in r.errtext():
+            out[name] = "exit(1)+message"
+        elif how == "abort" and (r.sig == 6 or (sig is not None and sig[0] == "ABRT")) and reached and "Assertion" in r.errtext():
+            out[name] = "assert"
+        else:
+            out[name] = "unexpected rc=%s sig=%s" % (r.rc, r.sig)
+            ctx.violation("model|failure-cell|%s|not-the-defined-failure" % name,
+                          "failure cell %s: expected %s at the last operation; got rc=%s sig=%s, %d records, stderr %r"
+                          % (name, how, r.rc, r.sig, len([g for g in got if g]), r.errtext()[-200:]), files)
+    cov["failure_cells"] = out
+
+
+# ======================================================================================================================
+# the check
+# ======================================================================================================================
+def run(ctx):
+    import time
+    asan = build.get("asan")
+    cov = {}
+    phases = {}
+    t0 = [time.time()]
+
+    def lap(name):
+        phases[name] = round(time.time() - t0[0], 1)
+        t0[0] = time.time()
+    with Scratch("c20") as sc:
+        # ---- part 1: programs ---------------------------------------------------------------------------------------
+        n_prog = ctx.n(120, 3000)
+        n_tpl = n_prog // 4
+        progs, n_generated = gen_programs(ctx, n_prog - n_tpl, n_tpl)
+        lap("generate_programs")
+        ctx.require(len(progs) >= n_prog * 0.75, "too few in-zone programs: %d of %d (generator produced %d candidates)" % (len(progs), n_prog, n_generated))
+        hist, fsets, psamples = run_programs(ctx, sc, asan, progs, cov)
+        cov["program_candidates_generated"] = n_generated
+        lap("run_programs")
+        n_census_clean = run_census(ctx, sc, asan, cov)
+        run_directed_programs(ctx, sc, asan, cov)
+        lap("census+directed_programs")
+        # ---- part 2: histories --------------------------------------------------------------------------------------
+        binp, cmdline = build_hist_probe(ctx, sc, asan)
+        cov["history_probe_build"] = cmdline[:400]
+        lap("build_history_probe")
+        run_failure_cells(ctx, sc, binp, cov)
+        run_directed_histories(ctx, sc, binp, cov)
+        lap("cells")
+        n_hist = ctx.n(2000, 200000)
+        maxlen = ctx.n(200, 1000)
+        hashes, hsamples = run_histories(ctx, sc, binp, n_hist, maxlen, cov)
+        lap("histories")
+        cov["phase_seconds"] = phases
+        if not ctx.violations:
+            ran = hist.get("clean+equal", 0) + hist.get("sanitizer-report", 0) + hist.get("behaviour-differs", 0)
+            ctx.require(ran >= len(progs) * 0.7, "too few programs were built and run natively: %s" % hist)
+            ctx.require(hist.get("inconclusive:watchdog", 0) <= len(progs) * 0.05, "too many watchdog timeouts: %s" % hist)
+            ctx.require(n_census_clean >= 40, "too few census cells ran natively (%d)" % n_census_clean)
+            ctx.require(cov["histories_inconclusive_watchdog"] <= n_hist * 0.02, "too many history batches hit the watchdog")
+            ctx.require(len(hashes) >= n_hist * 0.5, "too few distinct non-trivial histories agreed with the model (%d of %d)" % (len(hashes), n_hist))
+            ctx.require(len(cov["histories_touching_element_kind"]) >= 12, "element kinds reached: %s" % sorted(cov["histories_touching_element_kind"]))
+    cov.update({
+        "evaluations": len(progs) + n_hist + len(cov["census_sanitizer"]) + len(FAILURE_CELLS) + len(DIRECTED_HISTORIES) + len(DIRECTED_PROGRAMS),
+        "distinct_nontrivial": len(hashes) + len(fsets),
+        "rule": "histories: distinct SHA-256 of the operation text among histories with >= 20 operations whose every record agreed with the "
+                "model; programs: distinct feature-tag sets among programs that ran sanitizer-clean with >= 8 output lines equal to the "
+                "reference model; the two counts are added",
+        "distinct_histories": len(hashes),
+        "distinct_program_feature_sets": len(fsets),
+        "signed_overflow_policy": "generated arithmetic stays inside int64 (the reference model discards overflowing programs); the census cell "
+                                  "int_overflow_wrap is excluded: C20 asserts nothing about overflow of user arithmetic either way",
+        "samples": psamples[:3] + hsamples,
+    })
+    return ctx.finish(cov, assumptions=[
+        "programs are accepted by the reference evaluator first (no partial operation, no int64 overflow, inside the limits); the generator's "
+        "switches bound to defects of the evaluator / C compilation stay off, those bound to VM-only defects are on",
+        "fastcc links objects compiled once per flavor from the repository's own runtime sources with the flags nanoc passes plus "
+        "-fsanitize=address,undefined -fno-sanitize-recover=all; the history probe is built by the same command line",
+        "histories stay inside the API's domain (valid indices, live objects, the caller owns a reference to what it passes); out-of-range "
+        "operations end the process by design and appear only as single failure cells",
+        "the is_utf8 flag of an nl_string is modelled only where header and code agree (after validate, from_utf8, with_capacity)",
+        "capacity growth is not modelled: only length <= capacity, and that the claimed capacity is addressable (ASan)",
+        "leaks are not reported (detect_leaks=0): generated programs never release strings/arrays, which is memory-safe",
+    ])
+
+
+def replay(ctx, path):
+    """./check C20 --replay <dir|file>: a replay directory with history.txt, a findings/C20/*.hist file, or a directory /
+    file with a .nano program.  Prints what the real code does (records, stderr); exit 1 when a sanitizer reports."""
+    asan = build.get("asan")
+    with Scratch("c20r") as sc:
+        hist = None
+        prog = None
+        if os.path.isdir(path):
+            for cand in ("history.txt",):
+                if os.path.exists(os.path.join(path, cand)):
+                    hist = os.path.join(path, cand)
+            for cand in ("original/main.nano", "main.nano"):
+                if os.path.exists(os.path.join(path, cand)):
+                    prog = os.path.dirname(os.path.join(path, cand))
+        elif path.endswith(".nano"):
+            prog = path
+        else:
+            hist = path
+        rc = 0
+        if hist:
+            binp, _ = build_hist_probe(ctx, sc, asan)
+            r = run_probe(binp, open(hist).read(), sc.path)
+            print(r.text())
+            print("--- stderr (exit %s, signal %s)" % (r.rc, r.sig))
+            print(r.errtext()[-3000:])
+            sig = report_signature(r.errtext())
+            if sig and sig[0] != "ABRT":
+                print("VIOLATION property=C20 replay=%s\n  key: %s" % (path, san_key(sig)))
+                rc = 1
+        if prog:
+            d = sc.sub("prog")
+            if os.path.isdir(prog):
+                for fn in os.listdir(prog):
+                    shutil.copy(os.path.join(prog, fn), d)
+            else:
+                shutil.copy(prog, os.path.join(d, "main.nano"))
+            nr, built = engines.build_native(asan, d, san=True)
+            if not built:
+                print("nanoc did not build the program:\n" + nr.errtext()[-1500:])
+                return 2
+            r = engines.run_native(d, san=True)
+            print(r.text())
+            print("--- stderr (exit %s, signal %s)" % (r.rc, r.sig))
+            print(r.errtext()[-3000:])
+            sig = report_signature(r.errtext())
+            if sig and sig[0] != "ABRT":
+                print("VIOLATION property=C20 replay=%s\n  key: %s" % (path, san_key(sig)))
+                rc = 1
+        return rc
